@@ -123,4 +123,139 @@ Proof.
   - rewrite S in K'. discriminate K'.
 Qed.
 
+(* ---- what the monitor reads from the transmission of a poll ---- *)
+Section OnePoll.
+Variables (f f' : fdl) (now : Z) (busy : bool) (rxb : bytes) (apps apps' : list A) (o : phy_out) (calls : list call).
+Hypothesis R : Rep (length apps) f.
+Hypothesis Hp : f_p f = p.
+Hypothesis E : poll ops f now (mkPhyIn busy rxb) apps = Ok (f', o, apps', calls).
+Let s := poll_event now busy rxb f' o calls.
+
+Lemma sw_ts : ts f = p_address p. Proof. unfold ts. rewrite Hp. reflexivity. Qed.
+
+Lemma sw_cursor_ok : gap_cursor_ok f.
+Proof.
+  pose proof (Rep_ts _ _ R) as Hts. split; [lia|]. intros c Ec. pose proof (rep_gap _ _ R) as G. rewrite Ec in G. exact G.
+Qed.
+
+(* a transmission read as the station's own GAP request IS the GAP request of do_pass_token / do_claim_token: no
+   application transmitted in this poll *)
+Lemma own_gap_poll_tx a : own_gap_poll (p_address p) s = Some a ->
+  tx o = Some (sr_wire a (ts f)) /\ app_sent calls = false /\ tx_gap f f' (sr_wire a (ts f)) /\
+  decode_one (sr_wire a (ts f)) = Some (TData (status_request_header a (ts f)) []).
+Proof.
+  unfold own_gap_poll. cbn [s poll_event s_tx s_calls]. destruct (tx o) as [wire|] eqn:Etx; [|discriminate].
+  destruct (decode_one wire) as [t|] eqn:Hd; [|discriminate]. destruct t as [h pdu|da sa|]; try discriminate.
+  destruct (is_fdl_status_request h && (h_sa h =? p_address p) && negb (app_sent (map (conv_call (Some wire)) calls))) eqn:Ec; [|discriminate].
+  intros H. injection H as <-.
+  apply andb_true_iff in Ec. destruct Ec as (Ec & Hns). apply andb_true_iff in Ec. destruct Ec as (Hsr & _).
+  rewrite app_sent_conv in Hns. apply negb_true_iff in Hns.
+  pose proof (Rep_ts _ _ R) as Hts.
+  destruct (poll_transmissions A ops _ _ _ _ _ _ _ _ _ E Etx) as [(cs & i & hp & er & Hcs & _)|(_ & [Htok|[Hgap|Hrep]])].
+  - rewrite Hcs, app_sent_last in Hns. discriminate Hns.
+  - destruct Htok as (da & Hw & _). rewrite Hw, decode_one_token in Hd. discriminate Hd.
+  - pose proof Hgap as (a & Hw & Hin & Hrng & _). specialize (Hrng sw_cursor_ok).
+    assert (Hwf : wf_header (status_request_header a (ts f))) by (unfold wf_header, is_addr7; cbn; lia).
+    assert (Hd' : decode_one (sr_wire a (ts f)) = Some (TData (status_request_header a (ts f)) []))
+      by (unfold sr_wire; apply (decode_one_data _ [] Hwf); cbn; lia).
+    rewrite Hw, Hd' in Hd. injection Hd as <- _. cbn [h_da status_request_header].
+    rewrite <- Hw. split; [reflexivity|]. split; [exact Hns|]. split; [exact Hgap|rewrite Hw; exact Hd'].
+  - exfalso. destruct Hrep as (src & st & Hw & Hrs).
+    assert (Hsrc : 0 <= src < 128).
+    { pose proof (rep_st _ _ R) as St. destruct Hrs as [(cc & Es & _)|(nps & cc & Es & _)]; rewrite Es in St; cbn in St; tauto. }
+    assert (Hwf : wf_header (status_response_header src (ts f) st status_reply_status)) by (unfold wf_header, is_addr7; cbn; lia).
+    rewrite Hw in Hd. unfold reply_wire in Hd. rewrite (decode_one_data _ [] Hwf) in Hd by (cbn; lia).
+    injection Hd as <- _. discriminate Hsr.
+Qed.
+
+Lemma gap_tx_own a : tx o = Some (sr_wire a (ts f)) -> Forall no_send calls -> 0 <= a < 128 ->
+  own_gap_poll (p_address p) s = Some a.
+Proof.
+  intros Htx Hns Ha. rewrite own_gap_poll_y. pose proof (Rep_ts _ _ R) as Hts.
+  apply (L_poll p f f' now busy rxb o calls Hp a Htx Hns Ha). lia.
+Qed.
+
+Lemma claim_tx_true : tx o = Some (encode_token (ts f) (ts f)) ->
+  kind_of (f_state f) = KListenToken \/ kind_of (f_state f) = KActiveIdle \/ kind_of (f_state f) = KClaimToken ->
+  claim_tx (p_address p) (kind_of (f_state f)) s = true.
+Proof.
+  intros Htx Hk. unfold claim_tx. cbn [s poll_event s_tx]. rewrite Htx, decode_one_token, sw_ts, Z.eqb_refl.
+  destruct Hk as [K|[K|K]]; rewrite K; reflexivity.
+Qed.
+
+Lemma tx_gap_kinds w : tx_gap f f' w ->
+  (kind_of (f_state f) = KPassToken \/ kind_of (f_state f) = KUseToken \/ kind_of (f_state f) = KAwaitDataResponse \/
+   kind_of (f_state f) = KClaimToken) /\
+  f_state f' <> Offline /\ kind_of (f_state f') <> KListenToken.
+Proof.
+  intros (a & _ & _ & _ & _ & _ & Hst).
+  destruct Hst as [(S' & Ho)|(S' & Ho)]; (split; [|rewrite S'; split; discriminate]).
+  - destruct Ho as [(att & S)|[Hu|Hu]]; [rewrite S; left; reflexivity|right; left; exact Hu|right; right; left; exact Hu].
+  - right. right. right. destruct Ho as [S|(a0 & S)]; rewrite S; reflexivity.
+Qed.
+
+(* THE STEP.  From any station state with Rep, and any `last` that names the cursor of a polling phase: the rule is
+   silent, a new `last` names the new cursor, and a poll that ends Offline with a surviving `last` is a poll in
+   which the station re-created itself (it did not begin Offline). *)
+Lemma sweep_core last :
+  (forall a0, last = Some a0 -> f_gap f = GapDoPoll a0 /\ f_state f <> Offline) ->
+  snd (sweep_poll p (kind_of (f_state f)) last s) = [] /\
+  (forall a, fst (sweep_poll p (kind_of (f_state f)) last s) = Some a ->
+     (f_state f' <> Offline -> f_gap f' = GapDoPoll a) /\ (f_state f' = Offline -> f_state f <> Offline)).
+Proof.
+  intros HL. pose proof (poll_sweep_rel A ops _ _ _ _ _ _ _ _ E) as Hsw. cbn [tx_busy rx] in Hsw.
+  pose proof (bv_not_short_slot f (rep_p _ _ R)) as Hss.
+  unfold sweep_poll. destruct (own_gap_poll (p_address p) s) as [a|] eqn:Eo.
+  - (* the station's own GAP request *)
+    destruct (own_gap_poll_tx a Eo) as (Htx & Hns & Hgap & Hd).
+    destruct (tx_gap_kinds _ Hgap) as (Hkf & Hoff' & Hnl').
+    pose proof Hgap as (a' & Hw & _ & _ & _ & Hg' & _). apply sr_wire_inj in Hw. subst a'.
+    cbn [fst snd]. split.
+    + destruct last as [a0|]; [|reflexivity]. destruct (HL a0 eq_refl) as (Hg0 & _).
+      assert (Ha : a = gap_succ (p_hsa p) a0); [|rewrite <- Ha, Z.eqb_refl; reflexivity].
+      rewrite <- Hp. rewrite Htx in Hsw.
+      destruct Hsw as [Hr|[(a' & Ht & _ & Hstep & _)|[(da & Ht & _)|(Hq & _)]]].
+      * exfalso. destruct Hr as [K|[K|[K|[K|[(Ht & _)|K]]]]].
+        -- destruct Hkf as [K1|[K1|[K1|K1]]]; rewrite K1 in K; discriminate K.
+        -- destruct Hkf as [K1|[K1|[K1|K1]]]; rewrite K1 in K; discriminate K.
+        -- apply Hoff', kind_offline, K.
+        -- exact (Hnl' K).
+        -- assert (Ht' : sr_wire a (ts f) = encode_token (ts f) (ts f)) by congruence.
+           rewrite Ht', decode_one_token in Hd. discriminate Hd.
+        -- exact (Hss K).
+      * assert (Ht' : sr_wire a (ts f) = sr_wire a' (ts f)) by congruence. apply sr_wire_inj in Ht'. subst a'.
+        unfold gap_visit_step in Hstep. rewrite Hg0 in Hstep. exact (next_gap_poll_succ _ _ _ Hstep).
+      * exfalso. assert (Ht' : sr_wire a (ts f) = encode_token da (ts f)) by congruence.
+        rewrite Ht', decode_one_token in Hd. discriminate Hd.
+      * exfalso. destruct Hq as [Ht|[(wire & cs & i & hp & er & _ & Hcs)|[(src & st & _ & K)|(da & _ & K)]]].
+        -- discriminate Ht.
+        -- rewrite Hcs, app_sent_last in Hns. discriminate Hns.
+        -- destruct Hkf as [K1|[K1|[K1|K1]]]; destruct K as [K|K]; rewrite K1 in K; discriminate K.
+        -- destruct Hkf as [K1|[K1|[K1|K1]]]; rewrite K1 in K; discriminate K.
+    + intros a1 H1. split; [intros _|intros C; contradiction (Hoff' C)].
+      destruct (v_gap_due (s_view s)); [injection H1 as <-; exact Hg'|discriminate H1].
+  - (* no GAP request of the station in this poll *)
+    cbn [fst snd]. split; [reflexivity|]. intros a H1.
+    destruct (v_gap_due (s_view s) && negb (claim_tx (p_address p) (kind_of (f_state f)) s)) eqn:Ec; [|discriminate H1].
+    subst last. destruct (HL a eq_refl) as (Hg0 & Hnoff). split; [|intros _; exact Hnoff]. intros Hoff'.
+    apply andb_true_iff in Ec. destruct Ec as (Hdue & Hcl). apply negb_true_iff in Hcl.
+    cbn [s poll_event s_view view_of v_gap_due] in Hdue.
+    destruct Hsw as [Hr|[(a' & Ht & (l & Hl & Hf) & Hstep & _)|[(da & _ & _ & _ & _ & Hc)|(_ & Hc)]]].
+    + destruct Hr as [K|[K|[K|[K|[(Ht & Hk & _)|K]]]]].
+      * contradiction (Hnoff (kind_offline _ K)).
+      * exfalso. pose proof (rep_st _ _ R) as St. destruct (f_state f); try discriminate K. exact St.
+      * contradiction (Hoff' (kind_offline _ K)).
+      * rewrite (poll_to_listen_gap _ _ _ _ _ _ _ _ E K). exact Hg0.
+      * rewrite (claim_tx_true Ht Hk) in Hcl. discriminate Hcl.
+      * contradiction (Hss K).
+    + exfalso. cbn [app] in Hl. subst l.
+      destruct (gap_visit_step_in_gap f a' Hstep) as (_ & Hrng). specialize (Hrng sw_cursor_ok).
+      pose proof (Rep_ts _ _ R) as Hts.
+      rewrite (gap_tx_own a' Ht Hf) in Eo by lia. discriminate Eo.
+    + destruct Hc as [(_ & _ & (k & Hk))|(_ & Hg)]; [rewrite Hk in Hdue; discriminate Hdue|rewrite Hg; exact Hg0].
+    + destruct Hc as [(Hg & _)|(_ & _ & _ & _ & (k & Hk) & _)]; [rewrite Hg; exact Hg0|rewrite Hk in Hdue; discriminate Hdue].
+Qed.
+
+End OnePoll.
+
 End Step.
